@@ -135,6 +135,12 @@ class SymFactory:
     def complex(self, name):
         return SymComplex(self.real(name + ".re"), self.real(name + ".im"))
 
+    def pin(self, v):
+        """A CONCRETE int as a proxy (z3 numeral): divisions by it stay exact rationals instead
+        of being rounded by CPython float arithmetic before a proxy is met; range(), ==,
+        indexing see the concrete value."""
+        return SymNum(z3.IntVal(int(v)))
+
     def byte(self, name):
         return self.int(name, 0, 255)
 
@@ -163,6 +169,9 @@ class ConcreteFactory:
 
     def bool(self, name):
         return bool(self.values.get(name, False))
+
+    def pin(self, v):
+        return int(v)
 
     def complex(self, name):
         re, im = self.real(name + ".re"), self.real(name + ".im")
@@ -376,7 +385,12 @@ def load_target(c: Contract):
 
         for name, cc in c.stubs.items():
             mod.__dict__[name] = make_stub(cc)
-    f = loader.resolve(mod, c.qualname)
+    orig = getattr(mod, "__pyvc_orig__", {})
+    head = c.qualname.split(".")[0]
+    if head in orig and callable(orig[head]) and getattr(orig[head], "__module__", None) == c.module:
+        f = loader.resolve({head: orig[head]}, c.qualname)
+    else:
+        f = loader.resolve(mod, c.qualname)
     if c.unwrap:
         f = loader.unwrap(f)
     return mod, f
@@ -557,7 +571,7 @@ def verify(c: Contract, variant=None, deadline_s=600):
         if c.raises_iff:
             for p in normal:
                 out = p.value
-                check_clause(o, p, lambda out=out, pred=pred: pred(out.old), negate=True,
+                check_clause(o, p, lambda out=out, pred=pred: pred(out.a), negate=True,
                              label="normal return although %s was required" % et.__name__)
 
     for o in obs.values():
@@ -598,6 +612,26 @@ def replay(c: Contract, variant, o: Obligation, as_float=False):
             if c.unwrap:
                 f = loader.unwrap(f)
         S = ConcreteFactory(o.model, as_float=as_float)
+        patched = {}
+        if hasattr(c, "replay_recorders") and c.module is not None:
+            # pure recorders (delegate to the real callee) installed in the real module for
+            # the duration of this replay, so that clauses about calls can be evaluated
+            for name, rec in c.replay_recorders().items():
+                patched[name] = c.mod.__dict__[name]
+                rec.real = patched[name]
+                c.mod.__dict__[name] = rec
+        try:
+            return _replay_inner(c, variant, o, S, f)
+        finally:
+            for name, orig_f in patched.items():
+                c.mod.__dict__[name] = orig_f
+    except Exception as e:
+        return {"reproduced": False, "why": "replay crashed: %s: %s" % (type(e).__name__, str(e)[:200]),
+                "trace": traceback.format_exc()[-600:]}
+
+
+def _replay_inner(c, variant, o, S, f):
+    try:
         a = _args_namespace(c.args(S, variant))
         pre = c.requires(a)
         if not pre:
@@ -624,7 +658,7 @@ def replay(c: Contract, variant, o: Obligation, as_float=False):
         elif suffix.startswith("raises:"):
             en = suffix[len("raises:"):]
             et = [t for t in c.raises if t.__name__ == en][0]
-            cond = bool(c.raises[et](old))
+            cond = bool(c.raises[et](a))
             if kind == "exc" and isinstance(r, et):
                 res.update(reproduced=not cond, required="%s only under its declared condition" % en)
             elif kind == "ret":
